@@ -69,6 +69,7 @@ def step (s : St) (ws : List String) : St × String :=
   | ["nonce", a] => let (l', v) := getNonce l (parseAddr a); ({ s with l := l' }, toString v)
   | ["setnonce", a, n] => ({ s with l := setNonce l (parseAddr a) (n.toNat?.getD 0) }, "ok")
   | ["code", a] => let (l', v) := getCode l (parseAddr a); ({ s with l := l' }, showB v)
+  | ["codehash", a] => let (l', v) := getCodeHash l (parseAddr a); ({ s with l := l' }, match v with | some h => h | none => "-")
   | ["setcode", a, c, h] =>
     let s1 := { s with ktab := KV.set s.ktab (tok c) h }
     ({ s1 with l := setCode (K s1) l (parseAddr a) (tok c) }, "ok")
